@@ -347,7 +347,10 @@ class Nodes:
         Returns: (ScalarNode) The new node
         """
         minus_sign = "-" if value < 0.0 else None
-        strval = format(value, '.15f').rstrip('0').rstrip('.')
+        strval = format(value, '.15f').rstrip('0')
+        if strval.endswith('.'):
+            # Keep one decimal place lest whole numbers lose their dot
+            strval += '0'
         precision = 0
         width = len(strval)
         lastdot = strval.rfind(".")
